@@ -48,8 +48,8 @@ REQUIRED_MONITORS = ["crashes_delivered", "resumes_completed", "h5_files_compare
 CASE_TIMEOUT = 1500.0
 # budgets are sized for 16 workers; with fewer workers (VERIF_NCPU) the same work needs proportionally longer
 _SCALE = max(1.0, 16.0 / max(1, env.NCPU)) * float(os.environ.get("VERIF_BUDGET_SCALE", "1"))   # >1 on a loaded machine
-BUDGET_S = {"quick": 200 * _SCALE, "thorough": 1800 * _SCALE}
-MIN_NONTRIVIAL = 6
+BUDGET_S = {"quick": 900 * _SCALE, "thorough": 1800 * _SCALE}
+MIN_NONTRIVIAL = 5
 TOL = 1e-9
 
 MIXED = {"data": 2, "coordinates": 1, "velocities": 2, "forces": 3, "xyz": 2, "nonadiabatic": 0, "print": 0}
@@ -127,28 +127,43 @@ def gen_cases(tier, seed):
                        "phases": list(phases), "mod": [r, m]}, w)
 
     if tier == "quick":
-        logical("bomd-batch-mixed", LOGICAL_ALL, 12)                 # complete: ~100 points
-        logical("langevin", CKPT_TARGETS, 7)                          # complete for the checkpoint path: ~66
-        logical("xl-k3", ["step", "os.replace"], 4, phases=("after",))   # resume at every buffer phase
-        logical("ksa", ["step"], 2, phases=("after",))
-        logical("xl-k9", ["save_checkpoint", "torch.save"], 2, phases=("after",))
-        logical("xl-k5", ["step"], 2, phases=("after",))
-        logical("cis-bomd", ["step", "os.replace"], 2, phases=("after",))
-        logical("fssh", ["step"], 1, phases=("after",), w=3)
-        logical("ion-OH-", ["step"], 1, phases=("after",))
-        logical("ion-batch", ["save_checkpoint"], 1, phases=("after",))
-        logical("bomd-scalevel", ["save_checkpoint"], 1, phases=("after",))
-        logical("bomd-eshift", ["os.replace"], 1, phases=("before",))
-        logical("bomd-batch-mixed", ["step", "h5.append_data", "xyz.write", "save_checkpoint"], 3, mode="raise",
-                phases=("after",))
-        for name, k in (("bomd-batch-mixed", 2), ("langevin", 2), ("xl-k3", 1)):
-            add(name, {"kind": "sequence", "n": k, "seeds": [int(x) for x in g.integers(0, 2 ** 31, k)]})
-        add("langevin", {"kind": "syscall", "class": "pwrite64", "fractions": [0.04, 0.36, 0.52, 0.55, 0.97]}, 4)
-        add("langevin", {"kind": "syscall", "class": "writev", "fractions": [0.1, 0.55]}, 4)
-        add("bomd-batch-mixed", {"kind": "syscall", "class": "write", "fractions": [0.2, 0.9]}, 4)
-        add("bomd-batch-mixed", {"kind": "syscall", "class": "rename", "fractions": [0.0, 0.99]}, 4)
-        add("langevin", {"kind": "sigkill", "seeds": [int(x) for x in g.integers(0, 2 ** 31, 5)]})
-        add("bomd-batch-mixed", {"kind": "sigkill", "seeds": [int(x) for x in g.integers(0, 2 ** 31, 4)]})
+        # The complete enumerations live in the thorough tier; quick plays a sample of every enumeration so that the
+        # whole tier stays near 500 core-seconds and no case exceeds ~45 s on an idle core.
+        # --- sentinels: one small case of every scenario kind that feeds a REQUIRED_MONITOR.  They run first
+        #     (weight 100), so even a run cut short by its time budget has observed every kind.
+        add("langevin", {"kind": "sequence", "n": 1, "seeds": [int(g.integers(0, 2 ** 31))]}, 100)
+        add("bomd-all1", {"kind": "sigkill", "fracs": [0.35, 0.7]}, 100)
+        add("langevin", {"kind": "syscall", "points": [["rename", 0.0]]}, 100)
+        add("bomd-batch-mixed", {"kind": "exception", "targets": ["xyz.write"], "phases": ["after"], "mod": [0, 2]}, 100)
+        add("ion-batch", {"kind": "logical", "targets": ["os.replace"], "phases": ["after"], "mod": [0, 2]}, 100)
+
+        def sample(name, targets, m, take, rotate=True, **kw):
+            r0 = int(g.integers(0, m)) if rotate else 0
+            for j in range(take):
+                r = (r0 + j * (m // take)) % m
+                add(name, {"kind": "logical", "targets": targets, "phases": list(kw.get("phases", ("before", "after"))),
+                           "mod": [r, m]}, kw.get("w", 1.0))
+        sample("bomd-batch-mixed", LOGICAL_ALL, 12, 4)               # ~33 of the ~100 points, residues rotate with the seed
+        sample("langevin", CKPT_TARGETS, 7, 3)                        # ~28 of the 66 points of the checkpoint path
+        # fixed residues below: these configurations are the deterministic witnesses of the DESIGN section 7 rows
+        sample("xl-k3", ["step", "os.replace"], 3, 1, rotate=False, phases=("after",))   # resumes at all 4 buffer phases
+        sample("ksa", ["step"], 2, 1, rotate=False, phases=("after",))
+        sample("xl-k9", ["save_checkpoint", "torch.save"], 3, 1, rotate=False, phases=("after",))
+        sample("xl-k5", ["step"], 3, 1, rotate=False, phases=("after",))
+        sample("cis-bomd", ["step", "os.replace"], 3, 1, rotate=False, phases=("after",), w=2)
+        sample("fssh", ["step"], 2, 1, rotate=False, phases=("after",), w=3)
+        sample("ion-OH-", ["save_checkpoint"], 1, 1, rotate=False, phases=("after",))
+        sample("bomd-scalevel", ["save_checkpoint"], 2, 1, rotate=False, phases=("after",))
+        add("bomd-eshift", {"kind": "logical", "targets": ["os.replace"], "phases": ["before"], "mod": [1, 2]})
+        add("bomd-batch-mixed", {"kind": "exception", "targets": ["step", "h5.append_data", "save_checkpoint"],
+                                 "phases": ["after"], "mod": [int(g.integers(0, 3)), 3]})
+        for name in ("bomd-batch-mixed", "xl-k3"):
+            add(name, {"kind": "sequence", "n": 1, "seeds": [int(g.integers(0, 2 ** 31))]})
+        add("langevin", {"kind": "syscall", "points": [["pwrite64", 0.36], ["pwrite64", 0.53], ["pwrite64", 0.97]]}, 4)
+        add("langevin", {"kind": "syscall", "points": [["writev", 0.1], ["writev", 0.55]]}, 4)
+        add("bomd-batch-mixed", {"kind": "syscall", "points": [["write", 0.2], ["rename", 0.99]]}, 4)
+        add("langevin", {"kind": "sigkill", "seeds": [int(x) for x in g.integers(0, 2 ** 31, 3)]})
+        add("bomd-batch-mixed", {"kind": "sigkill", "seeds": [int(x) for x in g.integers(0, 2 ** 31, 2)]})
     else:
         full = ["bomd-batch-mixed", "bomd-all1", "bomd-noreuse", "bomd-molid1", "langevin", "langevin-batch-mixed",
                 "xl-k3-ckpt3", "xl-k5", "xl-k9", "xl-batch", "ksa-ckpt3", "cis-bomd", "cis-xl", "fssh", "ion-OH-",
@@ -581,7 +596,11 @@ def run_case(case):
             # plus a random delay of up to ~1.5 integrator steps, so that machine load cannot move it past the end
             nlines = sum(1 for e in rev if e.get("ev") == "call")
             t_step = t_ref / max(1, cfg_steps(case))
-            for s in plan["seeds"]:
+            for f in plan.get("fracs", []):      # sentinel: fixed position inside the run, tiny delay
+                k = max(1, int(float(f) * nlines))
+                scenarios.append(("sigkill@event%d" % k, [{"kill_at": [k, 0.003], "desc": "SIGKILL 3 ms after event-log "
+                                                           "line %d of %d" % (k, nlines)}]))
+            for s in plan.get("seeds", []):
                 g = np.random.default_rng(s)
                 k = int(g.integers(1, max(2, nlines - 4)))
                 delay = float(g.uniform(0.0, 1.5 * t_step))
@@ -593,20 +612,26 @@ def run_case(case):
             if counts is None:
                 return {"inconclusive": "strace census run failed", "monitors": mon}
             obs["syscall_census"] = counts
-            cls = plan["class"]
-            total = counts.get(cls, 0)
-            if total == 0:
-                return {"inconclusive": "census saw no %s call on the run's files" % cls, "monitors": mon}
-            if "fractions" in plan:
-                whens = sorted({min(total, max(1, 1 + int(f * total))) for f in plan["fractions"]})
-            else:
+            if "points" in plan:          # quick tier: [[class, fraction of that class' census], ...]
+                todo = []
+                for cls, f in plan["points"]:
+                    total = counts.get(cls, 0)
+                    if total:
+                        todo.append((cls, min(total, max(1, 1 + int(float(f) * total))), total))
+                if not todo:
+                    return {"inconclusive": "census saw none of the requested syscalls on the run's files: %r" % counts,
+                            "monitors": mon}
+            else:                          # thorough tier: one residue class of one syscall class
+                cls = plan["class"]
+                total = counts.get(cls, 0)
+                if total == 0:
+                    return {"inconclusive": "census saw no %s call on the run's files" % cls, "monitors": mon}
                 r0, m = plan["mod"]
-                whens = [w for w in range(1, total + 1) if w % m == r0][: plan.get("max", 10 ** 6)]
-                if len([w for w in range(1, total + 1) if w % m == r0]) > len(whens):
-                    # spread instead of taking a prefix
-                    allw = [w for w in range(1, total + 1) if w % m == r0]
-                    whens = [allw[int(i)] for i in np.linspace(0, len(allw) - 1, plan["max"]).round()]
-            for w in whens:
+                allw = [w for w in range(1, total + 1) if w % m == r0]
+                if len(allw) > plan.get("max", 10 ** 6):      # spread instead of taking a prefix
+                    allw = [allw[int(i)] for i in np.linspace(0, len(allw) - 1, plan["max"]).round()]
+                todo = [(cls, w, total) for w in allw]
+            for cls, w, total in todo:
                 scenarios.append(("%s@%d/%d" % (cls, w, total), [{"strace_cls": cls, "when": int(w),
                                                                   "desc": "SIGKILL at entry of %s #%d of %d" % (cls, w, total)}]))
         # ---- play
